@@ -225,12 +225,36 @@ template <class Dom> struct fuzz {
 };
 
 static bool g_use_bool = false;
+// CHAIN=1 (C05): w_{k+1} = w_k widen (w_k | y_k) with y_k = a few random operations applied to w_k (a loop body) must become
+// stationary for EVERY sequence y_k: a change in the last third of CHAIN_ITERS (default 300) iterations is reported.
+template <class Dom> bool chain(fuzz<Dom> &f, int iters) {
+  Dom w; cset cs;
+  int lo = f.r.in(-3, 0), hi = f.r.in(0, 3);
+  for (int i = 0; i < NV; i++) { w += (f.v[i] >= z_number((long)lo)); w += (f.v[i] <= z_number((long)hi)); }
+  { cstate s = {lo, lo, hi, hi, 0, 0}; cs.insert(s); cstate t = {hi, lo, lo, hi, 0, 0}; cs.insert(t); }
+  int last_change = -1;
+  for (int k = 0; k < iters; k++) {
+    Dom y(w); cset cy(cs); f.trace.clear();
+    int n = f.r.in(1, 4);
+    for (int q = 0; q < n; q++) {
+      if (!f.step(y, cy, 2)) return false;
+      cset keep; for (auto &st : cy) { bool small = true; for (int i = 0; i < NV; i++) if (st[i] > (1L << 28) || st[i] < -(1L << 28)) small = false; if (small) keep.insert(st); } cy = keep;   // no overflow of the concrete model
+    }
+    Dom j = w | y; Dom nw = w || j;
+    cs.insert(cy.begin(), cy.end()); fuzz<Dom>::cap(cs, f.r);
+    if (!f.check(nw, cs, "widening chain")) return false;
+    if (!(nw <= w)) last_change = k;
+    w = nw;
+  }
+  if (last_change >= iters - iters / 3) { crab::outs() << "NON-STATIONARY: the widening chain still changed at iteration " << last_change << " of " << iters << "; last value " << w << "\n"; return false; }
+  return true;
+}
 template <class Dom> int drive(const char *name, unsigned long long first, int count, int steps) {
   int bad = 0;
   for (int i = 0; i < count; i++) {
     fuzz<Dom> f(first + i);
     f.use_bool = g_use_bool;
-    if (!f.run(steps)) { crab::outs() << "  ^ domain " << name << " seed " << (first + i) << "\n"; bad++; if (bad >= 3) break; }
+    if (!(getenv("CHAIN") ? chain<Dom>(f, getenv("CHAIN_ITERS") ? atoi(getenv("CHAIN_ITERS")) : 300) : f.run(steps))) { crab::outs() << "  ^ domain " << name << " seed " << (first + i) << "\n"; bad++; if (bad >= 3) break; }
   }
   crab::outs() << name << ": " << count << " seeds, " << bad << " failing\n";
   return bad;
